@@ -32,6 +32,7 @@ type Exec struct {
 	contracts map[string]*Contract
 	variants  map[string][]*Contract
 	reachLogMemo map[*ssa.Function][]string
+	unknownCode  bool
 	ghosts   map[string]*GhostFunc
 
 	checks   []*Check
